@@ -1,14 +1,71 @@
 import JsonPathVerif.SimG
 /-! # C15 – evaluation depends only on the `Queryable` view of the data
 
-`EvalG.lean` is the evaluator written against the trait's accessors only; `SimG.lean` proves that it commutes with any
-faithful view `T → Json`. -/
+`EvalG.lean` is the evaluator of src/query/*.rs written against the trait's accessors only (a second transcription of the Rust
+code, generic in the data type); `SimG.lean` proves that it commutes with ANY faithful view `T → Json`, for all queries
+(selectors, segments, descendants, unions, nested filters, comparisons, all functions) and all documents. -/
 namespace JP.C15
 open JP
 
 variable {T : Type} {Q : Queryable T} {view : T → Json}
 
-/-- the four child selectors and the descendant expansion see the data only through the accessors -/
+/-- what a caller observes of a result: path, location and (viewed) value of every node, in order; or the error -/
+def observeG (view : T → Json) : Except Unit (List (PtrG T)) → Except Unit (List (Str × Loc × Json))
+  | .ok ps => .ok (ps.map fun p => (p.path, p.loc, view p.inner))
+  | .error e => .error e
+def observe : Except Unit (List Ptr) → Except Unit (List (Str × Loc × Json))
+  | .ok ps => .ok (ps.map fun p => (p.path, p.loc, p.inner))
+  | .error e => .error e
+
+/-- full statement: running a query over any faithful `Queryable` type yields, position by position, the same paths (and
+locations) and the views of the values that running it over the viewed JSON value yields; errors coincide -/
+theorem C15 (hf : Faithful Q view) (E : Engine) (q : List Segment) (t : T) :
+    observeG view (jsPathProcessG Q E t q) = observe (jsPathProcess E q (view t)) := by
+  have h := jsPathProcessG_view hf E t q
+  rw [← h]
+  cases jsPathProcessG Q E t q <;> simp [observeG, observe, viewP, Function.comp_def]
+
+/-- the `serde_json::Value` instance of the trait, as the model sees it -/
+def jsonQ : Queryable Json where
+  get := valueGet
+  asArray := asArr
+  asObject := asObj
+  asStr := asStrJ
+  num := numOf
+  asBool := asBoolJ
+  null := .null
+  ofBool := .bool
+  ofI64 := fun i => .num (.int i)
+  ofF64 := fun n d => .num (.flt n d)
+  ofStr := .str
+  beq := Json.beq
+  extensionCustom := extensionCustom
+  depth := Json.depth
+
+/-- non-vacuity: the hypothesis of `C15` is satisfiable – the identity is a faithful view of `Json` itself -/
+theorem jsonQ_faithful : Faithful jsonQ id where
+  asArray := fun t => by cases t <;> simp [jsonQ, asArr]
+  asObject := fun t => by cases t <;> simp [jsonQ, asObj]
+  get := fun t k => by simp [jsonQ]
+  asStr := fun _ => rfl
+  num := fun _ => rfl
+  asBool := fun _ => rfl
+  null := rfl
+  ofBool := fun _ => rfl
+  ofI64 := fun _ => rfl
+  ofF64 := fun _ _ => rfl
+  ofStr := fun _ => rfl
+  beq := fun _ _ => rfl
+  ext := fun _ _ => by simp [jsonQ]
+  depth := fun _ => rfl
+
+/-- consequently the accessor-only evaluator, instantiated at `Json`, IS the evaluator all other theorems are about:
+the two transcriptions of the Rust code cannot drift apart -/
+theorem evalG_at_json_is_eval (E : Engine) (q : List Segment) (d : Json) :
+    observeG id (jsPathProcessG jsonQ E d q) = observe (jsPathProcess E q d) := C15 jsonQ_faithful E q d
+
+/-- the building blocks, for reference: each selector, the descendant expansion, comparisons and functions see the data only
+through the accessors -/
 theorem wildcard_view (hf : Faithful Q view) (p : PtrG T) : viewD view (processWildcardG Q p) = processWildcard (viewP view p) :=
   processWildcardG_view hf p
 theorem slice_view (hf : Faithful Q view) (a b c : Option Int) (p : PtrG T) :
@@ -19,5 +76,8 @@ theorem index_view (hf : Faithful Q view) (i : Int) (p : PtrG T) : viewD view (p
   processIndexG_view hf i p
 theorem descendant_view (hf : Faithful Q view) (p : PtrG T) : viewD view (descendantG Q p) = processDescendant (viewP view p) :=
   descendantG_view hf p
+theorem comparison_view (hf : Faithful Q view) (op : CmpOp) (l r : DataG T) :
+    cmpDataG Q op l r = cmpData op (viewD view l) (viewD view r) := cmpDataG_view hf op l r
+theorem deep_equality_view (hf : Faithful Q view) (a b : T) : eqJsonG Q a b = eqJson (view a) (view b) := eqJsonG_view hf a b
 
 end JP.C15
